@@ -1,5 +1,6 @@
 /- C10 — configured limits bound what the parser keeps. -/
 import HtpModel.Lemmas.Conn
+import HtpModel.Lemmas.BufInv
 
 namespace Htp.C10
 open Htp.Conn Htp.Gen
@@ -85,5 +86,27 @@ theorem C10_repetitions_capped (hs : List Parse.Header) (reps : Nat) (h : Parse.
           intro hge; apply hc; rw [hrep]; simp [hge]
         split <;> simp [hrep] <;> omega
       · split <;> simp [hrep] <;> exact hr
+
+/-- **C10 (the line buffer stays within the hard limit, every state function)**: with the cursors inside the chunk and at most
+    `field_limit_hard` bytes set aside, each of the fourteen request state functions - whatever it answers - leaves both so. (Hypothesis
+    as in C01: no negative amount owed in the two counted body states.) -/
+theorem C10_req_state_buffer_bounded (cfg : Cfg) (c : Conn) (w : WFB cfg.fieldLimitHard c.inn)
+    (ho1 : c.inState = ReqState.bodyIdentity → 0 ≤ c.inn.bodyDataLeft)
+    (ho2 : c.inState = ReqState.bodyChunkedData → 0 ≤ c.inn.chunkedLength) :
+    WFB cfg.fieldLimitHard (reqStateFn cfg c).1.inn := wfbIn_reqStateFn cfg c w ho1 ho2
+
+/-- **C10 (the line buffer stays within the hard limit, whole data call)**: htp_connp_req_data on ANY state with at most `field_limit_hard`
+    bytes set aside, any chunk of data and any callback policy returns with at most `field_limit_hard` bytes set aside - so the bound
+    is carried from call to call. `CallReach` names the states the call's loop passes through; the hypothesis is that none of them owes
+    a negative amount in a counted body state (corresponded, not proved: it rests on the Content-Length and chunk-length parsers). -/
+theorem C10_req_call_buffer_bounded (cfg : Cfg) (d : Bytes) (c : Conn) (hs : (d.length : Int) < 18446744073709551616)
+    (hb : inBufLen c ≤ cfg.fieldLimitHard)
+    (ho : ∀ c', CallReach cfg (reqWakeOther (reqStoreChunk (some d) d.length c)) c' → OwedOK c') :
+    inBufLen (reqData cfg (some d) d.length c).1 ≤ cfg.fieldLimitHard := reqData_buffer_bounded cfg d c hs hb ho
+
+/-- non-vacuity: an unterminated request line is set aside (5 bytes, limit 18000) -/
+example :
+    let c : Conn := { inState := .line, inn := { status := STREAM_DATA, tx := some 0 }, txs := [some { uid := 0 }] }
+    inBufLen c ≤ (({} : Cfg).fieldLimitHard) ∧ inBufLen (reqData {} (some (b!"GET /")) 5 c).1 = 5 := by decide
 
 end Htp.C10
